@@ -52,16 +52,40 @@ theorem explicit_class_wins (env : Env) (impl : FmtImpl) (g g' : Globals) (fuel 
   exact moduleBody_congr env impl g g' fuel weak strong fc inst schema c false hm
 
 /-- registering a class whose metaschema id is not yet registered makes it selectable by that id
-    and disturbs no existing registration -/
-theorem register_new_id_preserves (env : Env) (g g' : Globals) (version : Str) (c : ClassDef)
+    and disturbs no existing registration.
+
+    FALSE as stated since the id function answers `""` for a schema with a `$ref` key (commit
+    070708b: an id next to `$ref` is ignored — `validates` reads the metaschema's id through the
+    same function): a metaschema with an id written next to a `$ref` key is registered by version
+    name only (`register_new_id_preserves_counterexample`).  It holds for metaschemas without a
+    `$ref` key (`register_new_id_preserves_partial`), as all bundled ones are. -/
+def register_new_id_preserves_statement : Prop :=
+    ∀ (env : Env) (g g' : Globals) (version : Str) (c : ClassDef)
+    (kvs : List (Str × Json)) (u k : Str)
+    (_hm : c.metaSchema = .obj kvs) (_hid : Json.lookup c.cfg.idKey kvs = some (.str u)) (_hne : u ≠ [])
+    (_hn : env.urinorm u = some k) (_hnew : lookupS k g.metaSchemas = none)
+    (_hv : validates env version c g = .ok g'),
+    lookupS k g'.metaSchemas = some c
+    ∧ (∀ k' c', lookupS k' g.metaSchemas = some c' → lookupS k' g'.metaSchemas = some c')
+    ∧ g'.latest = g.latest
+
+theorem register_new_id_preserves_counterexample : ¬ register_new_id_preserves_statement := by
+  intro h
+  have h1 := (h RegCex.env RegCex.g RegCex.g' (skey "v") RegCex.cls RegCex.kvs (skey "urn:x") (skey "urn:x")
+    rfl RegCex.hid RegCex.hne rfl rfl RegCex.hv).1
+  cases h1
+
+/-- the statement with the missing hypothesis made explicit: the metaschema has no `$ref` key -/
+theorem register_new_id_preserves_partial (env : Env) (g g' : Globals) (version : Str) (c : ClassDef)
     (kvs : List (Str × Json)) (u k : Str)
     (hm : c.metaSchema = .obj kvs) (hid : Json.lookup c.cfg.idKey kvs = some (.str u)) (hne : u ≠ [])
+    (hnr : Json.hasKey (skey "$ref") kvs = false)
     (hn : env.urinorm u = some k) (hnew : lookupS k g.metaSchemas = none)
     (hv : validates env version c g = .ok g') :
     lookupS k g'.metaSchemas = some c
     ∧ (∀ k' c', lookupS k' g.metaSchemas = some c' → lookupS k' g'.metaSchemas = some c')
     ∧ g'.latest = g.latest := by
-  rw [validates_with_id env g version c kvs u k hm hid hne hn] at hv
+  rw [validates_with_id env g version c kvs u k hm hid hne hnr hn] at hv
   cases hv
   refine ⟨lookupS_replace_self k c g.metaSchemas, fun k' c' h' => ?_, rfl⟩
   have hk : k' ≠ k := fun e => by rw [e, hnew] at h'; cases h'
@@ -83,6 +107,12 @@ theorem metaschema_ids :
     (Draft.all.map fun d => Json.lookup d.idKey (match d.metaSchema with | .obj kvs => kvs | _ => []))
       = [ some (.str "http://json-schema.org/draft-03/schema#".toList), some (.str "http://json-schema.org/draft-04/schema#".toList),
           some (.str "http://json-schema.org/draft-06/schema#".toList), some (.str "http://json-schema.org/draft-07/schema#".toList) ] := by
+  decide +kernel
+
+/-- no bundled metaschema has a `$ref` key at its top, so each is registered by its id -/
+theorem metaschemas_no_ref :
+    (Draft.all.map fun d => Json.hasKey (skey "$ref") (match d.metaSchema with | .obj kvs => kvs | _ => []))
+      = [false, false, false, false] := by
   decide +kernel
 
 end JS.Props.C20
